@@ -476,7 +476,7 @@ def scramble(n: int, ks: Sequence[int], n_keys: int, ball_depth: int, tier: str,
     from jumanji.environments.logic.rubiks_cube import utils as U
 
     t0 = time.time()
-    acc = Acc(f"cube-scramble-n{n}")
+    acc = Acc(f"cube-scramble-n{n}-k{max(ks)}")
     A = R.n_moves(n)
     N = 6 * n * n
     keys = jnp.stack([jax.random.PRNGKey(i) for i in range(n_keys)])
